@@ -9,14 +9,15 @@ EXTENDS PrefixScope, Json, SequencesExt
 CONSTANTS NSample, NRand
 VARIABLES chunk, done
 GChunks == UNION {UNION {{<<c, k, p>> : p \in Places(k)} : k \in Kinds} : c \in Cfgs} \cup {<<c, "multi", "multi">> : c \in Cfgs}
-MapsOf(c) == [m \in Present(c) |-> [own |-> Own(c, m), imports |-> SetToSeq(ImportsOf(c, m))]]
+MapsOf(c) == [m \in Units(c) |-> [own |-> Own(c, m), imports |-> SetToSeq(ImportsOf(c, m)), belongs |-> IF IsSub(m) THEN ModOf(m) ELSE ""]]
 StmtOut(c, s) == [kind |-> s.kind, place |-> s.place, T |-> s.T, U |-> s.U, V |-> s.V, e |-> s.e, pf |-> s.pf,
                   text |-> Text(Expr(s), s.pf), bad |-> Bad(c, s), syntax |-> SyntaxOK(s),
                   names |-> Names(c, s), namedJudged |-> NamedJudged(s), observable |-> Observable(s)]
 Vec(I) == [cfg |-> I.cfg, maps |-> MapsOf(I.cfg), stmts |-> [i \in 1..Len(I.stmts) |-> StmtOut(I.cfg, I.stmts[i])],
            verdict |-> Verdict(I), badStmts |-> SetToSeq(BadStmts(I))]
-Pick(S) == IF NSample = 0 \/ Cardinality(S) <= NSample THEN S ELSE {RandomElement(S) : i \in 1..NSample}
-InstancesOf(ch) == IF ch[2] = "multi" THEN Multi(ch[1], NRand) ELSE Pick(Single(ch[1], ch[2], ch[3]))
+InstancesOf(ch) == IF ch[2] = "multi" THEN Multi(ch[1], NRand)
+                   ELSE IF NSample = 0 THEN Single(ch[1], ch[2], ch[3])
+                   ELSE {[cfg |-> ch[1], stmts |-> <<s>>] : s \in SampleStmts(ch[1], ch[2], ch[3], NSample)}
 FileOf(ch) == "pvec_" \o ch[1] \o "_" \o ch[2] \o "_" \o ch[3] \o ".ndjson"
 GInit == chunk \in GChunks /\ done = FALSE
 GNext == /\ ~done /\ done' = TRUE /\ UNCHANGED chunk
